@@ -41,6 +41,7 @@ def install():
             pass
     mathops.np._srcmodule = symnp
     mathops.fft._srcmodule = symnp.fft
+    mathops.ndimage._srcmodule = symnp.ndimage
     import math as _m
     import numpy as _n
     for name, mod in list(sys.modules.items()):
@@ -119,7 +120,41 @@ def idx(n, name):
     k = Int(name)
     ctx.add(k.z >= 0)
     ctx.add((k < n).z) if not isinstance(n, int) else ctx.add(k.z < n)
+    ctx.add_hint(k)
     return k
+
+
+def hint(*terms):
+    """index terms at which universally quantified library facts (argmin/argmax...) are instantiated"""
+    for t in terms:
+        ctx.add_hint(lift(t))
+
+
+def Delta(shape, pos, amp, kind='f'):
+    """point source: amp at index pos, zero elsewhere"""
+    dt = DT(kind, 64 if kind == 'f' else 128)
+    a = SArr(tuple(shape), lambda ix: ite(And(*[lift(i) == p for i, p in zip(ix, pos)]), amp, amp * 0), dt)
+    a._delta = tuple(pos)
+    return a
+
+
+class stub:
+    """modular reasoning: inside the block, `module.name` is replaced by the callee's contract
+    (a functional specification proved separately against the callee's real body)."""
+    def __init__(self, module, name, spec):
+        self.module, self.name, self.spec = module, name, spec
+
+    def __enter__(self):
+        install()
+        self.mod = importlib.import_module(self.module)
+        self.old = getattr(self.mod, self.name)
+        setattr(self.mod, self.name, self.spec)
+        ctx.axiom_log.add('callee-contract:%s.%s' % (self.module, self.name))
+        return self
+
+    def __exit__(self, *a):
+        setattr(self.mod, self.name, self.old)
+        return False
 
 
 def did_raise(fn, *exc):
